@@ -616,6 +616,7 @@ class HistoryRun:
         self.reads = []                             # every read value in order (for cross-session comparison)
         self.failed = False
         self.grids = []                             # grids returned by grid reads (output_grid on)
+        self.grid_first = []                        # their content when they were returned
 
     def fail(self, what, observed, expected):
         self.failed = True
@@ -663,6 +664,12 @@ class HistoryRun:
                           "dataset session")
         for i in range(len(self.live)):
             self.read(i)
+        # grids handed out by earlier reads are objects of their own: later reads and derivations leave them as they were
+        for j, g in enumerate(self.grids[:len(self.grid_first)]):
+            now = [canon(np.asarray(c.data)) for c in g.children()]
+            if now != self.grid_first[j]:
+                self.fail("a grid returned by an earlier read holds other values after later operations", now,
+                          self.grid_first[j])
 
     def run(self):
         sim = self.sim
@@ -684,6 +691,7 @@ class HistoryRun:
                         if hasattr(g, "array"):
                             self.grids.append(g)
                             self.reads.append([canon(np.asarray(c.data)) for c in g.children()])
+                            self.grid_first.append(self.reads[-1])
                         else:
                             self.reads.append(canon(np.asarray(g.data)))
                     elif op[0] == "gmap":           # a map (or the array) of the opened grid, read on its own
@@ -696,6 +704,7 @@ class HistoryRun:
                                     r = g[op[2]]
                                     self.grids.append(r)
                                     self.reads.append([canon(np.asarray(c.data)) for c in r.children()])
+                                    self.grid_first.append(self.reads[-1])
                                 else:
                                     self.reads.append(canon(np.asarray(g[op[2]][op[3]].data)))
                             except IndexError:
